@@ -1,6 +1,8 @@
 import PymtlVerif.Model.Bits
 /-!
-Model of the behavioural RTLIR type checker of pymtl3, as the code is NOW (quirks included):
+Model of the behavioural RTLIR type checker of pymtl3, as the code is NOW (quirks included; after the
+`fix:` commits 1ca9de9 literal widths, 4d9c041 literal wider than the LHS, c1db525 if-expression width,
+075f6b8 constant folding of explicitly sized constants, and the `Bool`-branch repair of `visit_IfExp`):
 
 * `pymtl3/passes/rtlir/behavioral/BehavioralRTLIRTypeCheckL1Pass.py`
   (`BehavioralRTLIRTypeCheckVisitorL1`: `visit_Number`, `visit_Attribute` (signals), `visit_SizeCast`,
@@ -192,24 +194,11 @@ def intUn (op : UOp) (k : Int) : Int :=
 structure Env where
   lvs : List (Nat × Nat)
   tmps : List (Nat × (Nat × Bool))
-  /-- temporaries whose recorded data type is `rdt.Bool` (assigned from a comparison) rather than `Vector(1)` -/
-  bools : List (Nat × Bool) := []
 deriving Repr, Inhabited
 
-def Env.empty : Env := ⟨[], [], []⟩
+def Env.empty : Env := ⟨[], []⟩
 
-def Env.setTmp (Γ : Env) (t : Nat) (e : Nat × Bool) (b : Bool := false) : Env :=
-  { Γ with tmps := (t, e) :: Γ.tmps, bools := (t, b) :: Γ.bools }
-
-/-- is the node's data type `rdt.Bool` (not `rdt.Vector`)?  Comparisons are; `visit_UnaryOp` and
-    `visit_IfExp` copy the operand's / body's type; a temporary has the type of what was assigned to it.
-    Both are one bit wide and compare equal — the only place that tells them apart is `visit_IfExp`. -/
-def isBoolE (Γ : Env) : Expr → Bool
-  | .cmp _ _ _ => true
-  | .un _ e => isBoolE Γ e
-  | .ite _ t _ => isBoolE Γ t
-  | .tmp t => (Γ.bools.lookup t).getD false
-  | _ => false
+def Env.setTmp (Γ : Env) (t : Nat) (e : Nat × Bool) : Env := { Γ with tmps := (t, e) :: Γ.tmps }
 
 /-! ## node rules (non-recursive; the children have been checked already) -/
 
@@ -225,8 +214,10 @@ def unify (tl tr : AT) : Except TErr (AT × AT) :=
   else
     if ra.w < la.w then .error .type else .ok (enforce ra.w tl, tr)
 
-/-- the last part of `visit_BinOp`: constant folding re-types the node to the minimal width of the value -/
+/-- the last part of `visit_BinOp`: constant folding re-types the node to the minimal width of the value;
+    only an implicitly sized result is folded (as repaired: `Bits8(3) + 1` stays an 8-bit term) -/
 def foldBin (op : Op) (la ra : Ann) (res : Nat) (ex : Bool) : Except TErr Ann :=
+  if ex then .ok ⟨res, ex, none⟩ else
   match la.val, ra.val with
   | some l, some r =>
     match intBin op l r with
@@ -253,28 +244,22 @@ def cmpRule (tl tr : AT) : Except TErr AT :=
   | .error e => .error e
   | .ok (tl', tr') => .ok (.n2 ⟨1, true, none⟩ tl' tr')
 
-/-- `visit_IfExp`.  NB the both-implicit branch enforces the *wider* side (a no-op on its root) and the
-    node takes `node.body.Type`, whatever the orelse side is (quirk, finding N2); the widths are only
-    unified when both branches are `rdt.Vector` — a `Bool` branch (`bt`/`bf`) skips it (finding N5) -/
-def iteRule (tc tt tf : AT) (bt bf : Bool) : Except TErr AT :=
+/-- `visit_IfExp` (as repaired): two explicit branches must have the same width; an implicit branch is
+    re-sized to the other one (the narrower of two implicit branches to the wider); the node is as wide
+    as its wider branch after that.  (`rdt.Bool`, the type of a comparison, counts as a 1-bit vector.) -/
+def iteRule (tc tt tf : AT) : Except TErr AT :=
   let ta := tt.ann; let fa := tf.ann
   let ex := ta.ex || fa.ex
-  if ta.w = fa.w || bt || bf then .ok (.ite ⟨ta.w, ex, none⟩ tc tt tf)
+  let mk (tt' tf' : AT) : AT :=
+    .ite ⟨if tf'.ann.w > tt'.ann.w then tf'.ann.w else tt'.ann.w, ex, none⟩ tc tt' tf'
+  if ta.w = fa.w then .ok (mk tt tf)
   else if ta.ex && fa.ex then .error .type
   else if !ta.ex && !fa.ex then
-    if ta.w ≥ fa.w then
-      let tt' := enforce ta.w tt
-      .ok (.ite ⟨tt'.ann.w, ex, none⟩ tc tt' tf)
-    else
-      .ok (.ite ⟨ta.w, ex, none⟩ tc tt (enforce fa.w tf))
+    if ta.w ≥ fa.w then .ok (mk tt (enforce ta.w tf)) else .ok (mk (enforce fa.w tt) tf)
   else if !ta.ex then
-    if fa.w < ta.w then .error .type
-    else
-      let tt' := enforce fa.w tt
-      .ok (.ite ⟨tt'.ann.w, ex, none⟩ tc tt' tf)
+    if fa.w < ta.w then .error .type else .ok (mk (enforce fa.w tt) tf)
   else
-    if ta.w < fa.w then .error .type
-    else .ok (.ite ⟨ta.w, ex, none⟩ tc tt (enforce ta.w tf))
+    if ta.w < fa.w then .error .type else .ok (mk tt (enforce ta.w tf))
 
 def unRule (op : UOp) (te : AT) : AT :=
   .n1 ⟨te.ann.w, te.ann.ex, te.ann.val.map (intUn op)⟩ te
@@ -373,7 +358,7 @@ def checkE (Γ : Env) : Expr → Except TErr AT
     | .ok tt =>
     match checkE Γ f with
     | .error er => .error er
-    | .ok tf => iteRule tc tt tf (isBoolE Γ t) (isBoolE Γ f)
+    | .ok tf => iteRule tc tt tf
   | .cast n e =>
     match checkE Γ e with
     | .ok te => .ok (castRule n te)
@@ -441,12 +426,17 @@ def isTarget : Expr → Bool
   | .sig _ _ | .idx _ _ _ | .slc _ _ _ _ => true
   | _ => false
 
-/-- L1 `_visit_Assign_single_target`: an implicit right-hand side of another width is re-sized to the
-    target (no "does it fit" test — finding F4), then both widths must be equal -/
+/-- L1 `_visit_Assign_single_target` (as repaired): an implicit right-hand side of another width is
+    rejected if it needs more bits than the target has, otherwise re-sized to the target; then both
+    widths must be equal -/
 def asgRule (tt te : AT) : Except TErr AS :=
   let lw := tt.ann.w
-  let te' := if !te.ann.ex && te.ann.w ≠ lw then enforce lw te else te
-  if te'.ann.w = lw then .ok (.asg tt te') else .error .type
+  if !te.ann.ex && te.ann.w ≠ lw then
+    if te.ann.w > lw then .error .type
+    else
+      let te' := enforce lw te
+      if te'.ann.w = lw then .ok (.asg tt te') else .error .type
+  else if te.ann.w = lw then .ok (.asg tt te) else .error .type
 
 def checkS (Γ : Env) : Stmt → Except TErr (Env × AS)
   | .skip => .ok (Γ, .skip)
@@ -474,9 +464,9 @@ def checkS (Γ : Env) : Stmt → Except TErr (Env × AS)
     | .ok te =>
       match Γ.tmps.lookup t with
       | some (w, ex) =>
-        if w = te.ann.w then .ok (Γ.setTmp t (te.ann.w, te.ann.ex) (isBoolE Γ e), .tasg ⟨te.ann.w, ex, none⟩ te)
+        if w = te.ann.w then .ok (Γ.setTmp t (te.ann.w, te.ann.ex), .tasg ⟨te.ann.w, ex, none⟩ te)
         else .error .type
-      | none => .ok (Γ.setTmp t (te.ann.w, te.ann.ex) (isBoolE Γ e), .tasg ⟨te.ann.w, true, none⟩ te)
+      | none => .ok (Γ.setTmp t (te.ann.w, te.ann.ex), .tasg ⟨te.ann.w, true, none⟩ te)
   | .ifs c b o =>
     match checkE Γ c with
     | .error er => .error er
